@@ -30,7 +30,7 @@ CHECK_DEADLOCK FALSE
 
 
 def write_cfg(name, nxs, maxval, repaired, mode="all", keep=1, emit=True):
-    p = os.path.join(vlib.BUILD, name + ".cfg")
+    p = os.path.join(vlib.cfgdir(), name + ".cfg")
     os.makedirs(vlib.BUILD, exist_ok=True)
     with open(p, "w") as f:
         f.write(CFG_T.format(nxset="{" + ",".join(str(n) for n in nxs) + "}", maxval=maxval,
@@ -117,7 +117,7 @@ def binding_b(v, exe, seed, ncases):
     def validate(k):
         try:
             # a private copy of the configuration: vlib.tlc derives its scratch directory from the cfg name
-            cfgk = os.path.join(vlib.BUILD, "C17_GridTrace_%s.cfg" % k)
+            cfgk = os.path.join(vlib.cfgdir(), "C17_GridTrace_%s.cfg" % k)
             with open(os.path.join(vlib.SPEC, "GridTrace.cfg")) as fi, open(cfgk, "w") as fo:
                 fo.write(fi.read())
             results[k] = vlib.tlc("GridTrace", cfgk, workers=1, timeout=900, env={"TRACE": paths[k]}, coverage=False)
